@@ -604,7 +604,7 @@ impl Attributes {
         Attributes { forms }
     }
 }
-const ATTR_TARGETS: u64 = 17;
+const ATTR_TARGETS: u64 = 26;
 impl RuleFamily for Attributes {
     fn name(&self) -> String {
         format!("attributes/{} forms of the known (and two unknown) directives x {} targets x {{once, twice}}", self.forms.len(), ATTR_TARGETS)
@@ -636,6 +636,8 @@ impl RuleFamily for Attributes {
         let mut e = en("E", Some(MType::prim("uint8")), vec![enumerator("A")]);
         let mut c = custom("C");
         let mut al = alias("A", MType::prim("int32"));
+        let mut j_base = MType::named("I");
+        let mut extra: Option<MDef> = None;
         match target {
             0 => f.file_attrs = attrs,
             1 => f.module.as_mut().unwrap().attrs = attrs,
@@ -681,6 +683,35 @@ impl RuleFamily for Attributes {
             }
             12 => c.common_mut().attrs = attrs,
             13 => al.common_mut().attrs = attrs,
+            // type references in every position: the underlying type of an enum, a base of an interface, a parameter's
+            // and a return type, an element / key / value type, the type of an alias, of an enumerator's field
+            17 => {
+                if let MDef::Enum(x) = &mut e {
+                    x.underlying.as_mut().unwrap().attrs = attrs;
+                }
+            }
+            18 => j_base.attrs = attrs,
+            19 => {
+                if let MDef::Interface(x) = &mut i {
+                    x.ops[0].params[0].ty.attrs = attrs;
+                }
+            }
+            20 => {
+                if let MDef::Interface(x) = &mut i {
+                    if let MRet::Single { ty, .. } = &mut x.ops[2].ret {
+                        ty.attrs = attrs;
+                    }
+                }
+            }
+            21 => extra = Some(st("T1", vec![MField::new("g", MType::seq(MType { attrs, ..MType::prim("int32") }))])),
+            22 => extra = Some(st("T2", vec![MField::new("g", MType::dict(MType { attrs, ..MType::prim("int32") }, MType::prim("bool")))])),
+            23 => extra = Some(st("T3", vec![MField::new("g", MType::dict(MType::prim("string"), MType { attrs, ..MType::prim("int32") }).opt())])),
+            24 => {
+                if let MDef::Alias(x) = &mut al {
+                    x.ty.attrs = attrs;
+                }
+            }
+            25 => extra = Some(en("V", None, vec![MEnumerator { c: MCommon::new("X"), fields: Some(vec![MField::new("vf", MType { attrs, ..MType::result(MType::prim("int32"), MType::prim("string")) })]), value: None }])),
             // operations with a single return, with a return that is only a stream, with a streamed parameter
             k => {
                 if let MDef::Interface(x) = &mut i {
@@ -689,6 +720,8 @@ impl RuleFamily for Attributes {
             }
         }
         f.defs.extend([s, i, e, c, al]);
+        f.defs.push(iface("J", vec![j_base], vec![]));
+        f.defs.extend(extra);
         (vec![f], format!("[{}{}] x{} on target {target}", a.directive, a.args.as_ref().map(|x| format!("({})", x.iter().map(|y| y.value()).collect::<Vec<_>>().join(","))).unwrap_or_default(), if twice { 2 } else { 1 }))
     }
 }
